@@ -20,6 +20,19 @@ Definition dec_hop (l : list Z) : option hop :=
   | [7] => Some HPurge
   | [11; n] => Some (HResize (Z.to_nat n))
   | [23] => Some HRemoveLru
+  | [4; k; f; w] => Some (HPeekMut k (dec_w f w))
+  | [5; k] => Some (HContains k)
+  | [12] => Some (HGetLru None)
+  | [13] => Some (HPeekMru None)
+  | [14; f; w] => Some (HGetLru (dec_w f w))
+  | [15; f; w] => Some (HPeekMru (dec_w f w))
+  | [16; k; v] => Some (HPeekMutOrPut k v None)
+  | [17; k; v; f; w] => Some (HPeekMutOrPut k v (dec_w f w))
+  | [18; k; v] => Some (HContainsOrPut k v)
+  | [19] => Some (HPeekLru None)
+  | [20; f; w] => Some (HPeekLru (dec_w f w))
+  | [21] => Some (HPeekMru None)
+  | [22; f; w] => Some (HPeekMru (dec_w f w))
   | _ => None
   end.
 
@@ -38,6 +51,9 @@ Definition enc_hout (o : hout) : list Z :=
   | OVal v => enc_opt_v v
   | OEnt e => enc_opt_kv e
   | OUnit => []
+  | OBool b => [zb b]
+  | OValPut a b => enc_opt_v a ++ enc_opt_put b
+  | OBoolPut a b => zb a :: enc_opt_put b
   end.
 
 Definition herr_code (e : herr) : Z :=
@@ -47,7 +63,13 @@ Definition herr_code (e : herr) : Z :=
     prints that, so the comparison fails *)
 Definition hstep_enc (s : hstate) (o : list Z) : option (hstate * list Z * list Z) :=
   match dec_hop o with
-  | None => None
+  | None =>
+    match o with
+    | [8] => Some (s, [zn (length (hidx (hs_q s)))], [0])       (* len = map.len() *)
+    | [9] => Some (s, [zn (hcap (hs_q s))], [0])
+    | [10] => Some (s, [zb (Nat.eqb (length (hidx (hs_q s))) 0)], [0])
+    | _ => None
+    end
   | Some op =>
     match hstep (hs_h s) (hs_q s) op with
     | HOk (h1, q1, r) =>
@@ -82,3 +104,17 @@ Definition hsnap (s : hstate) : list Z :=
   end.
 
 Definition hretained (s : hstate) : nat := length (hidx (hs_q s)).
+
+(** the final drop: run [Drop] on the heap; the fifth number is the count of cells below [fresh]
+    that are still allocated afterwards (the harness reports its live heap blocks there) *)
+Fixpoint count_live (c : addr -> cell) (n : nat) : nat :=
+  match n with
+  | O => O
+  | S m => ((match c m with Free => 0 | Node _ _ _ _ => 1 end) + count_live c m)%nat
+  end.
+
+Definition hdrop_out (s : hstate) : list Z :=
+  match h_drop (hs_h s) (hs_q s) with
+  | HOk h' => [zn (hretained s); zn (hretained s); 0; 0; zn (count_live (cells h') (fresh h')); 0]
+  | HErr e => [-2000; herr_code e]
+  end.
